@@ -1,6 +1,7 @@
 package dns_naming
 
 import (
+	"encoding/binary"
 	"net"
 	"net/netip"
 	"strings"
@@ -157,6 +158,18 @@ func (h *DNSHandler) sendMDNS(buf []byte, srcAddr packet.Addr, dstAddr packet.Ad
 	}
 	ip6 = ip6.SetPayload(udp, syscall.IPPROTO_UDP)
 	ether, _ = ether.SetPayload(ip6)
+	// the UDP checksum is mandatory over IPv6 (RFC 8200 8.1): pseudo header + datagram; 0 is sent as 0xffff
+	psh := make([]byte, 40+len(udp))
+	copy(psh[0:16], ip6.Src().AsSlice())
+	copy(psh[16:32], ip6.Dst().AsSlice())
+	binary.BigEndian.PutUint32(psh[32:36], uint32(len(udp)))
+	psh[39] = syscall.IPPROTO_UDP
+	copy(psh[40:], udp)
+	if cs := packet.Checksum(psh); cs == 0 {
+		udp[6], udp[7] = 0xff, 0xff
+	} else {
+		udp[6], udp[7] = byte(cs), byte(cs>>8)
+	}
 	if _, err := h.session.Conn.WriteTo(ether, &dstAddr); err != nil {
 		LoggerMDNS.Msg("failed to write").Error(err).Write()
 	}
